@@ -207,10 +207,19 @@ class Scenario:
                 except OSError: pass
             for a in ('b3', 'b2', 's2', 's3'):
                 shutil.rmtree(A.path('.xvc/' + a), ignore_errors=True)
+            # C03 through `bring`: one path may hold an uncommitted edit instead of being absent - bring (no --force) must
+            # leave it alone
+            self.edited = {}
             for p in paths:
                 if os.path.lexists(A.path(p)): os.unlink(A.path(p))
             self.lines += ['dropcache'] + ['\t'.join(['delete', p]) for p in paths]
             self.obs += [None] * (1 + len(paths))
+            if rng.random() < 0.5:
+                p = rng.choice(paths)
+                eb = b'uncommitted edit of ' + p.encode() + bytes(f' {rng.randint(0, 99)}\n', 'ascii')
+                A.write(p, eb); self.table.add(eb); self.edited[p] = eb
+                rh.Runner.restamp(A, stamps)
+                self.model('\t'.join(['write', p, eb.hex()]), None)
         else:
             A.git('add', '-A'); A.git('commit', '-q', '-m', 'all', '--allow-empty')
             B = Sandbox(self.base, 'B', self.xvc)
@@ -240,7 +249,11 @@ class Scenario:
         for p in want: self.chk.count(f'download:{eff[p]}')
         for p in sent: self.chk.count(f'upload:{updec[p]}')
         # oracle: bytes, no corrupt object
+        for p, eb in getattr(self, 'edited', {}).items():
+            if rc.read_through(ob2, p) != eb:
+                self.fail.append((f'bring (without --force) replaced the uncommitted edit at {p}', {'kind': 'bring-overwrote-uncommitted'}))
         for p in want:
+            if p in getattr(self, 'edited', {}): continue
             got = rc.read_through(ob2, p)
             if eff[p] == 'ok':
                 if got != files[p]:
@@ -263,6 +276,7 @@ class Scenario:
                 if not n or (n['bytes'], n['ino']) != v:
                     self.fail.append((f'bringing again replaced or removed cache object {k}', {'kind': 'bring-not-idempotent'}))
             for p in want:
+                if p in getattr(self, 'edited', {}): continue
                 if eff[p] == 'ok' and rc.read_through(ob3, p) != files[p]:
                     self.fail.append((f'bringing again changed {p}', {'kind': 'bring-not-idempotent'}))
         if B is not A: B.cleanup()
